@@ -41,6 +41,7 @@ class Agg:
         self.mut_ops = 0
         self.extra = collections.Counter()
         self.rid = set()
+        self.variants = set()
         self.samples = []
         self.harness = []
         self.log = hashlib.sha256()
@@ -67,6 +68,7 @@ class Agg:
         for c in st.get("cells", ()):
             self.cells.add(c)
         self.rid.update(st.get("raised_in_dispatch", ()))
+        self.variants.update(st.get("variants", ()))
         if st.get("nontrivial"):
             self.nontrivial.add(st.get("interleaving") or st.get("case_digest") or f"{res['key'][0]}:{res['key'][1]}")
         if st.get("policy"):
@@ -297,6 +299,8 @@ def write_evidence(prop, args, agg, total_wall, search_wall, cut, nviol, known_l
         },
         "dispatch_overrides_with_a_raising_path_inside": len(agg.rid),
         "dispatch_overrides_total": _n_dispatch(),
+        "dispatch_variants_reached_by_the_every_variant_sweep": len(agg.variants),
+        "dispatch_variants_total": _n_variants(),
         "mid_call_observations": agg.observed,
         "quiescent_point_checks": agg.quiescent,
         "state_changing_ops": agg.mut_ops,
@@ -336,6 +340,18 @@ def _n_dispatch():
     from . import sites
 
     return sum(1 for rel, a, b in sites.get()["dispatch_with"] if rel.startswith("_compute"))
+
+
+def _n_variants():
+    import importlib
+    import pkgutil
+
+    import vector._compute
+
+    tot = 0
+    for m in pkgutil.walk_packages(vector._compute.__path__, "vector._compute."):
+        tot += len(getattr(importlib.import_module(m.name), "dispatch_map", ()) or ())
+    return tot
 
 
 def replay(args):
